@@ -498,7 +498,7 @@ def found_tests(g, var):
     return out
 
 
-def scenario_paths(g, scenario, start=None, limit=3000, skip_labels=('exc',)):
+def scenario_paths(g, scenario, start=None, limit=3000, skip_labels=('exc',), goal=None):
     """all simple paths start(entry) -> exit / raise-exit on which every test whose atoms the *scenario* (atom text -> bool) decides
     takes the decided outcome; other tests fork.  Short-circuit `and` / `or` are evaluated with Python's rules."""
     try:
@@ -518,7 +518,7 @@ def scenario_paths(g, scenario, start=None, limit=3000, skip_labels=('exc',)):
                 return None
             return r if lab == 'true' else not r
         if isinstance(co, ast.BoolOp):
-            rs = [decide(v) for v in co.values]
+            rs = [decide(v, depth) for v in co.values]
             if isinstance(co.op, ast.And):
                 r = False if any(x is False for x in rs) else (True if all(x is True for x in rs) else None)
             else:
@@ -526,6 +526,11 @@ def scenario_paths(g, scenario, start=None, limit=3000, skip_labels=('exc',)):
         else:
             a_, v_ = atom_key(co, True)
             r = None if a_ not in scenario else (scenario[a_] == v_)
+            if r is None and isinstance(co, ast.Compare) and len(co.ops) == 1 and isinstance(co.ops[0], (ast.Eq, ast.NotEq, ast.Is, ast.IsNot)):
+                # two conditions compared with each other: `isinstance(p, bytes) == bytes_mode`
+                l_, r_ = decide(co.left, depth), decide(co.comparators[0], depth)
+                if l_ is not None and r_ is not None:
+                    r = (l_ == r_) if isinstance(co.ops[0], (ast.Eq, ast.Is)) else (l_ != r_)
         if r is None:
             return None
         return r if lab == 'true' else not r
@@ -536,8 +541,12 @@ def scenario_paths(g, scenario, start=None, limit=3000, skip_labels=('exc',)):
         count[0] += 1
         if count[0] > limit:
             raise AnalysisError('scenario_paths: too many paths')
+        if goal is not None and n is goal:
+            out.append(trail)          # (paths TO a node: the node may sit in a loop, the path stops at its first visit)
+            return
         if n is g.exit or n is g.raise_exit:
-            out.append(trail)
+            if goal is None:
+                out.append(trail)
             return
         labs = None
         if n.kind == 'test' and n.ast is not None:
@@ -553,6 +562,38 @@ def scenario_paths(g, scenario, start=None, limit=3000, skip_labels=('exc',)):
     s0 = start or g.entry
     walk(s0, [s0])
     return out
+
+
+def names_at(g, node, scenario, limit=4000):
+    """for the truth assignment *scenario*: the ways plain-name copies can stand when control reaches *node* -- a list of dicts
+    {local: the name it (transitively) holds a copy of}, one per distinct outcome over the paths entry -> node.  `x = y` copies, any other
+    binding of x forgets it; so `if ns is None: ns = state` and `t = state if ns is None else ns` read the same."""
+    outs = []
+    for path in scenario_paths(g, scenario, goal=node, limit=limit):
+        cp = {}
+        for n in path[:-1]:
+            a_ = n.ast
+            if n.kind != 'stmt' or a_ is None:
+                if n.kind in ('for', 'with', 'except') and a_ is not None:
+                    tgt = a_.target if n.kind == 'for' else a_
+                    for x in ast.walk(tgt):
+                        if isinstance(x, ast.Name) and isinstance(x.ctx, ast.Store):
+                            cp.pop(x.id, None)
+                continue
+            bound = set(x.id for x in ast.walk(a_) if isinstance(x, ast.Name) and isinstance(x.ctx, (ast.Store, ast.Del))) \
+                if not isinstance(a_, (ast.FunctionDef, ast.AsyncFunctionDef, ast.ClassDef)) else {a_.name}
+            src_ = None
+            if isinstance(a_, ast.Assign) and len(a_.targets) == 1 and isinstance(a_.targets[0], ast.Name) and isinstance(a_.value, ast.Name):
+                src_ = cp.get(a_.value.id, a_.value.id)
+            for b_ in bound:
+                cp.pop(b_, None)
+                for k_ in [k_ for k_, v_ in cp.items() if v_ == b_]:
+                    cp.pop(k_)
+            if src_ is not None and src_ != a_.targets[0].id:
+                cp[a_.targets[0].id] = src_
+        if cp not in outs:
+            outs.append(cp)
+    return outs
 
 
 def dict_contents_at(g, node, var, scenario, limit=4000, fi=None):
